@@ -153,6 +153,8 @@ pub enum Kind {
     Slice,
     Str,
     Mapped(usize),
+    Stream,
+    MStream(usize),
 }
 
 #[derive(Clone, Copy, Debug, PartialEq, Eq)]
@@ -406,6 +408,10 @@ impl<'a> Rd<'a> {
             "mapped0" => Kind::Mapped(0),
             "mapped1" => Kind::Mapped(1),
             "mapped3" => Kind::Mapped(3),
+            "stream" => Kind::Stream,
+            "mstream0" => Kind::MStream(0),
+            "mstream1" => Kind::MStream(1),
+            "mstream3" => Kind::MStream(3),
             t => return Err(format!("bad input kind {t}")),
         };
         let mode = match self.tok()? {
